@@ -453,3 +453,38 @@ pub fn binder_zoo(rng: &mut Rng) -> String {
     (0..nf).map(|f| format!("    Process.println(Str.fromInt(Main.f{f}(Sh.Two(r, 5), r, {f})));\n    Process.println(Str.fromInt(Main.f{f}(Sh.Mark(r), r, {f})));\n")).collect::<String>()
   )
 }
+
+// ---------------------------------------------------------------------------------------------
+// string literals by adjacency of "atoms": every sequence of up to three atoms, where the atoms are
+// the escape sequences, the characters that are special in one of the target languages (backtick,
+// `$`, `{`), the letters that would form an escape if a preceding backslash were misread, and a
+// non-ASCII character. Source text of the literal, quotes included.
+
+const STRING_ATOMS_EXEC: &[&str] = &["a", " ", "\\\\", "\\\"", "\\n", "\\t", "`", "$", "{", "}", "\u{e9}", "'", "n", "t", "b", "0"];
+const STRING_ATOMS_MORE: &[&str] = &["\\r", "\\0", "\\b", "\\f", "\\v", "%", "\u{1F600}", "/", "*"];
+
+pub fn string_literal_count(exec_safe: bool) -> usize {
+  let n = STRING_ATOMS_EXEC.len() + if exec_safe { 0 } else { STRING_ATOMS_MORE.len() };
+  n + n * n + n * n * n
+}
+
+pub fn string_literal(i: usize, exec_safe: bool) -> String {
+  let atoms: Vec<&str> = STRING_ATOMS_EXEC.iter().chain(if exec_safe { [].iter() } else { STRING_ATOMS_MORE.iter() }).copied().collect();
+  let n = atoms.len();
+  let mut i = i % (n + n * n + n * n * n);
+  let mut s = String::from("\"");
+  if i < n {
+    s.push_str(atoms[i]);
+  } else if i < n + n * n {
+    i -= n;
+    s.push_str(atoms[i / n]);
+    s.push_str(atoms[i % n]);
+  } else {
+    i -= n + n * n;
+    s.push_str(atoms[i / (n * n)]);
+    s.push_str(atoms[(i / n) % n]);
+    s.push_str(atoms[i % n]);
+  }
+  s.push('"');
+  s
+}
